@@ -1,12 +1,18 @@
 // C03 correspondence driver: Key ==, cmp, std Hash (recorded call sequence), get_hash(), through every
 // public constructor and string flavour.
 //
-// stdin: one case per line = keys separated by " | ".  One key =
-//     <ctor> <flav><namehex> <ops|-> L<chunk>;<chunk>;...
+// stdin: one case per line = [<storage> " || "] keys separated by " | ".  One key =
+//     <ctor> <flav><namehex> <ops|-> L<chunk>;<chunk>;... [@<a>.<b>]
+//   storage (optional): B<hex> = ONE leaked static text buffer of the case; strings of flavour p/q are sub-slices of it
+//          (so equal-start/different-length, equal-content/different-address, overlapping and empty slices occur);
+//          Q<label>,<label>,.. = ONE leaked static label slice of the case; a key with "@a.b" takes &Q[a..b] as its
+//          constructor labels (its first chunk then only documents the contents)
 //   ctor : P from_parts(Vec<Label>)   N from_name   G Key::from(name)   F Key::from((name, Vec<Label>))
 //          I from_parts(name, slice::Iter<Label>)   R from_parts(name, &[(String, String)])
 //          S from_static_parts   L from_static_labels   T from_static_name
-//   flav : s static (&'static str)   o owned String   a Arc<str>
+//   flav : s static (&'static str, own allocation)   o owned String   O owned String with spare capacity   a Arc<str> (own allocation)
+//          A clone of the case-wide Arc<str> for this text (same pointer for equal texts)
+//          p<off>.<len> const_str(&B[off..off+len])   q<off>.<len> SharedString::from(&B[off..off+len])  (no hex)
 //   chunk: labels "<flav><khex>:<flav><vhex>" separated by ','; the first chunk goes to the constructor,
 //          every further chunk is added by one with_extra_labels call (an empty chunk = with_extra_labels(vec![]))
 //   ops  : applied afterwards, left to right: c = replace the key by its clone, h = call get_hash()
@@ -88,35 +94,82 @@ fn leak(s: &str) -> &'static str {
     Box::leak(s.to_owned().into_boxed_str())
 }
 
-fn shared(tok: &str) -> SharedString {
-    let (f, h) = tok.split_at(1);
-    let s = String::from_utf8(unhex(h)).expect("case strings are UTF-8");
-    match f {
-        "s" => SharedString::const_str(leak(&s)),
-        "o" => SharedString::from(s),
-        "a" => SharedString::from(Arc::<str>::from(s.as_str())),
-        _ => panic!("bad flavour {}", f),
-    }
+// storage shared by all keys of one case
+struct Ctx {
+    buf: &'static str,
+    lpool: &'static [Label],
+    arcs: std::cell::RefCell<std::collections::HashMap<String, Arc<str>>>,
 }
 
-fn text(tok: &str) -> String {
-    String::from_utf8(unhex(&tok[1..])).expect("case strings are UTF-8")
+fn pooled(tok: &str, ctx: &Ctx) -> &'static str {
+    let (off, len) = tok[1..].split_once('.').expect("pooled string token is <p|q><off>.<len>");
+    let (off, len): (usize, usize) = (off.parse().unwrap(), len.parse().unwrap());
+    &ctx.buf[off..off + len]
 }
 
-fn label(tok: &str) -> Label {
-    let (k, v) = tok.split_once(':').unwrap();
-    if k.starts_with('s') && v.starts_with('s') {
-        Label::from_static_parts(leak(&text(k)), leak(&text(v)))
+fn is_pooled(tok: &str) -> bool {
+    tok.starts_with('p') || tok.starts_with('q')
+}
+
+fn text(tok: &str, ctx: &Ctx) -> String {
+    if is_pooled(tok) {
+        pooled(tok, ctx).to_owned()
     } else {
-        Label::new(shared(k), shared(v))
+        String::from_utf8(unhex(&tok[1..])).expect("case strings are UTF-8")
     }
 }
 
-fn chunk(c: &str) -> Vec<Label> {
+// a &'static str for the constructors that need one: pooled flavours alias the case buffer, the others get their own allocation
+fn static_str(tok: &str, ctx: &Ctx) -> &'static str {
+    if is_pooled(tok) {
+        pooled(tok, ctx)
+    } else {
+        leak(&text(tok, ctx))
+    }
+}
+
+fn shared(tok: &str, ctx: &Ctx) -> SharedString {
+    let f = &tok[..1];
+    match f {
+        "p" => SharedString::const_str(pooled(tok, ctx)),
+        "q" => SharedString::from(pooled(tok, ctx)),
+        _ => {
+            let s = text(tok, ctx);
+            match f {
+                "s" => SharedString::const_str(leak(&s)),
+                "o" => SharedString::from(s),
+                "O" => {
+                    // owned, with spare capacity (length and capacity differ in the Cow's metadata)
+                    let mut t = String::with_capacity(s.len() + 7);
+                    t.push_str(&s);
+                    SharedString::from(t)
+                }
+                "a" => SharedString::from(Arc::<str>::from(s.as_str())),
+                "A" => {
+                    let arc = ctx.arcs.borrow_mut().entry(s.clone()).or_insert_with(|| Arc::<str>::from(s.as_str())).clone();
+                    SharedString::from(arc)
+                }
+                _ => panic!("bad flavour {}", f),
+            }
+        }
+    }
+}
+
+fn label(tok: &str, ctx: &Ctx) -> Label {
+    let (k, v) = tok.split_once(':').unwrap();
+    let stat = |t: &str| t.starts_with('s') || t.starts_with('p');
+    if stat(k) && stat(v) {
+        Label::from_static_parts(static_str(k, ctx), static_str(v, ctx))
+    } else {
+        Label::new(shared(k, ctx), shared(v, ctx))
+    }
+}
+
+fn chunk(c: &str, ctx: &Ctx) -> Vec<Label> {
     if c.is_empty() {
         Vec::new()
     } else {
-        c.split(',').map(label).collect()
+        c.split(',').map(|l| label(l, ctx)).collect()
     }
 }
 
@@ -126,14 +179,22 @@ struct Built {
     labels: Vec<(String, String)>,
 }
 
-fn build(spec: &str) -> Built {
+fn build(spec: &str, ctx: &Ctx) -> Built {
     let t: Vec<&str> = spec.split_whitespace().collect();
-    assert!(t.len() == 4, "bad key spec {:?}", spec);
+    assert!(t.len() == 4 || t.len() == 5, "bad key spec {:?}", spec);
     let (ctor, name_tok, ops, chunks) = (t[0], t[1], t[2], &t[3][1..]);
     let chunks: Vec<&str> = chunks.split(';').collect();
-    let first = chunk(chunks[0]);
-    let name = shared(name_tok);
-    let name_s = text(name_tok);
+    // constructor labels: either built from the first chunk, or the sub-slice &Q[a..b] of the case's static label slice
+    let pool_slice: Option<&'static [Label]> = t.get(4).map(|r| {
+        let (a, b) = r[1..].split_once('.').unwrap();
+        &ctx.lpool[a.parse::<usize>().unwrap()..b.parse::<usize>().unwrap()]
+    });
+    let first = match pool_slice {
+        Some(sl) => sl.to_vec(),
+        None => chunk(chunks[0], ctx),
+    };
+    let name = shared(name_tok, ctx);
+    let name_s = text(name_tok, ctx);
     let mut key = match ctor {
         "P" => Key::from_parts(name, first),
         "N" => {
@@ -151,16 +212,19 @@ fn build(spec: &str) -> Built {
                 first.iter().map(|l| (l.key().to_owned(), l.value().to_owned())).collect();
             Key::from_parts(name, &pairs[..])
         }
-        "S" => Key::from_static_parts(leak(&name_s), Box::leak(first.into_boxed_slice())),
-        "L" => Key::from_static_labels(name, Box::leak(first.into_boxed_slice())),
+        "S" => Key::from_static_parts(
+            static_str(name_tok, ctx),
+            pool_slice.unwrap_or_else(|| Box::leak(first.into_boxed_slice())),
+        ),
+        "L" => Key::from_static_labels(name, pool_slice.unwrap_or_else(|| Box::leak(first.into_boxed_slice()))),
         "T" => {
             assert!(first.is_empty());
-            Key::from_static_name(leak(&name_s))
+            Key::from_static_name(static_str(name_tok, ctx))
         }
         _ => panic!("bad ctor {}", ctor),
     };
     for c in &chunks[1..] {
-        key = key.with_extra_labels(chunk(c));
+        key = key.with_extra_labels(chunk(c, ctx));
     }
     if ops != "-" {
         for o in ops.chars() {
@@ -178,7 +242,7 @@ fn build(spec: &str) -> Built {
         if !c.is_empty() {
             for l in c.split(',') {
                 let (k, v) = l.split_once(':').unwrap();
-                labels.push((text(k), text(v)));
+                labels.push((text(k, ctx), text(v, ctx)));
             }
         }
     }
@@ -207,7 +271,22 @@ fn replay(ev: &[String]) -> Option<u64> {
 }
 
 fn run_case(line: &str) -> String {
-    let built: Vec<Built> = line.split('|').map(|s| build(s.trim())).collect();
+    let (storage, keys) = match line.split_once("||") {
+        Some((h, k)) => (h.trim(), k),
+        None => ("", line),
+    };
+    let mut ctx = Ctx { buf: "", lpool: &[], arcs: Default::default() };
+    for tok in storage.split_whitespace() {
+        if let Some(h) = tok.strip_prefix('B') {
+            ctx.buf = leak(&String::from_utf8(unhex(h)).expect("case buffer is UTF-8"));
+        } else if let Some(q) = tok.strip_prefix('Q') {
+            let ls = chunk(q, &ctx);
+            ctx.lpool = Box::leak(ls.into_boxed_slice());
+        } else {
+            panic!("bad storage token {}", tok);
+        }
+    }
+    let built: Vec<Built> = keys.split('|').map(|s| build(s.trim(), &ctx)).collect();
     let n = built.len();
     let mut out: Vec<String> = Vec::new();
     let mut hashes: Vec<u64> = Vec::new();
